@@ -1099,32 +1099,51 @@ pub fn mon_auth(_scn: &Scenario, r: &Record, out: &mut V) {
     }
 }
 
-/// what must be identical between a run with forged datagrams and the same run without them
+/// what must be identical between a run with forged datagrams and the same run without them:
+/// what the applications read, which packets were processed, what was acknowledged, how the
+/// connection ended.  (When exactly an endpoint sends its own packets may shift by a fraction of a
+/// millisecond because any arriving datagram is a transmission opportunity - not part of C06.)
 pub fn observation(r: &Record) -> String {
     let mut s = String::new();
+    let mut read_total: BTreeMap<(u8, u64), u64> = BTreeMap::new();
     for a in &r.app {
-        s.push_str(&format!("a{},{},{:?};", a.t, a.ep, a.ev));
+        match &a.ev {
+            App::Read { stream, len, ok, .. } => {
+                *read_total.entry((a.ep, *stream)).or_insert(0) += *len as u64;
+                if !*ok {
+                    s.push_str(&format!("badread{},{};", a.ep, stream));
+                }
+            }
+            App::Write { .. } => {}
+            other => s.push_str(&format!("a{},{:?};", a.ep, other)),
+        }
     }
+    s.push_str(&format!("reads{:?};", read_total));
     for ep in [CLIENT, SERVER] {
         let mut rx: Vec<(u8, u64)> = r.rx.iter().filter(|p| p.ep == ep).map(|p| (p.space, p.pn)).collect();
         rx.sort();
         s.push_str(&format!("rx{}:{:?};", ep, rx));
+        let mut acked: BTreeSet<(u8, u64)> = BTreeSet::new();
+        let mut ecn_max: [u64; 3] = [0; 3];
         for p in r.tx.iter().filter(|p| p.ep == ep) {
-            s.push_str(&format!("tx{},{},{},{}[", p.t, p.ep, p.space, p.pn));
             for f in &p.frames {
-                match f {
-                    F::Ack { largest, ranges, ecn, .. } => s.push_str(&format!("ACK{}{:?}{:?}", largest, ranges, ecn)),
-                    F::Stream { id, off, data, fin } => s.push_str(&format!("S{},{},{},{}", id, off, data.len(), fin)),
-                    other => s.push_str(other.name()),
+                if let F::Ack { ranges, ecn, .. } = f {
+                    for (lo, hi) in ranges {
+                        for x in *lo..=*hi {
+                            acked.insert((p.space, x));
+                        }
+                    }
+                    if let (Some((a, b, c)), true) = (ecn, (p.space as usize) < 3) {
+                        ecn_max[p.space as usize] = ecn_max[p.space as usize].max(a + b + c);
+                    }
                 }
-                s.push(',');
             }
-            s.push_str("];");
         }
+        s.push_str(&format!("acked{}:{:?};ecn{:?};", ep, acked, ecn_max));
     }
     for e in &r.events {
         if let Ev::Closed { error, .. } = &e.ev {
-            s.push_str(&format!("closed{},{},{};", e.t, e.ep, error.split(',').next().unwrap_or("")));
+            s.push_str(&format!("closed{},{};", e.ep, error.split(',').next().unwrap_or("")));
         }
     }
     s
